@@ -157,16 +157,24 @@ def u_clip(c):
         for at in range(0, 10):
             for tail in (0, 1, 3, 9, 30):
                 for sep in ("/", "", "/x/"):
-                    host = ("h" * hostlen)
-                    text = front + host + sep + "p" * at + special + "t" * tail + ("/more?q=1" if tail % 2 else "") + "z"
-                    out = fn(text, shorten=True, permitted_protocols=["http", "https", "ftp", "mailto"])
-                    n += 1
-                    why = analyse(text, out, True, False, ["http", "https", "ftp", "mailto"], "")
-                    if why and bad is None:
-                        bad = (text, out, why)
+                    for semi in (None, "host", "path", "entity-before"):      # a literal ';' or a complete entity earlier in the kept prefix must not confuse the guard
+                        host = ("h" * hostlen)
+                        if semi == "host" and hostlen > 1:
+                            host = "h;" + host[2:] if hostlen > 2 else "h;"
+                        filler = "p" * at
+                        if semi == "path" and at:
+                            filler = ";" + filler[1:]
+                        elif semi == "entity-before" and at:
+                            filler = "&" + filler[1:]
+                        text = front + host + sep + filler + special + "t" * tail + ("/more?q=1" if tail % 2 else "") + "z"
+                        out = fn(text, shorten=True, permitted_protocols=["http", "https", "ftp", "mailto"])
+                        n += 1
+                        why = analyse(text, out, True, False, ["http", "https", "ftp", "mailto"], "")
+                        if why and bad is None:
+                            bad = (text, out, why)
     c.cover("clip/%s" % front)
     c.values = {"text": bad[0], "output": bad[1], "broken": bad[2]} if bad else {}
-    c.oblige("post/label-is-a-prefix-plus-dots-and-no-entity-is-split (%d url shapes)" % n, bad is None)
+    c.oblige("post/label-is-a-prefix-plus-dots-and-no-entity-is-split", bad is None)
 
 
 def replay_values(c):
@@ -188,7 +196,7 @@ def standin(tier, seed):
             failures.append({"what": what, "history": {k: repr(v)[:200] for k, v in h.items()}})
     SCHEMES = ["http", "https", "ftp", "mailto", "javascript", "HTTP", "x-y", "h_1", "data", "é", "http"]
     HOSTS = ["example.com", "a.b", "localhost:8080", "user@host", "h" * 25, "www.x.org", "名.jp", "[::1]", "x", "tornadoweb.org"]
-    PATHY = ["/", "/path", "/a/b/c", "?q=1&r=2", "/a?b=\"c\"", "#frag", "/(paren)", "/p(a)q", "/x&y", "/it's", "/<b>", "/a.b.c", "/" + "s" * 12, "/é", "/%41", "/;p", "/~u", "/&amp;", "/a&quot;b", "/" + "l" * 40, "&", "\"", ""]
+    PATHY = ["/", "/path", "/a/b/c", "?q=1&r=2", "/a?b=\"c\"", "#frag", "/(paren)", "/p(a)q", "/x&y", "/it's", "/<b>", "/a.b.c", "/" + "s" * 12, "/é", "/%41", "/;p", "/~u", "/&amp;", "/a&quot;b", "/" + "l" * 40, "&", "\"", "", ";", "/a;b", ";x&y"]
     GLUE = [" ", " ", "\n", ", ", ". ", "! ", "(", ") ", " - ", "\"", "'", "<", ">", "&", ";", ":", "&amp; ", "x", "é ", "\U0001F600 ", "\t", "", "www", "http:", "://"]
 
     def fragment():
